@@ -1,7 +1,12 @@
 (* C03.v — Catalog is an insertion-ordered map whose key index and order never diverge
    Statements only: every theorem is closed by [exact] of a lemma proved elsewhere, and its
-   axioms are printed.  Generated once by tools/mkprop.py from the proved lemmas' statements. *)
-From Verif Require Import Base Seq Coll AssocProofs.
+   axioms are printed.  Generated once by tools/mkprop.py from the proved lemmas' statements. 
+   Round 2 (polish): an [Example] of non-vacuity beside the theorems with hypotheses (data in AssocProofs2.v);
+   from C03_go_key_equality_is_symmetric on: Go's "==" as modelled (Value.keq) satisfies the symmetry and
+   transitivity hypotheses, so the history theorems hold for the pool's keys without hypotheses on keq; the
+   Catalog operations of the pool machine are the association-list functions; Sort/Reverse/Shuffle keep the mapping. *)
+From Verif Require Import Base Sorter SorterProofs Value Seq Coll Pool PoolFrame AssocProofs SorterProofs2 AssocProofs2.
+Local Open Scope nat_scope.
 
 Theorem C03_keys_stay_distinct :
   forall (K V : Type) (keq : K -> K -> bool),
@@ -9,6 +14,17 @@ Theorem C03_keys_stay_distinct :
          forall (ops : list (aop K V)) (m : list (K * V)),
          wfm K V keq m -> wfm K V keq (arun K V keq m ops).
 Proof. exact C03_inv. Qed.
+
+(* non-vacuity: the catalog a:1 b:2 c:3 (string keys, Go "==" as modelled by Value.keq, which IS symmetric
+   and transitive: C03_go_key_equality_is_symmetric, _is_transitive), and the history: set new d, update b, remove a, remove the absent z, set a again *)
+Example C03_keys_stay_distinct_example :
+  (forall a b : val, keq a b = keq b a) /\ wfm val val keq ex_cat /\
+  arun val val keq ex_cat ex_aops = [(kb, iv 20); (kc, iv 3); (kd, iv 4); (ka, iv 5)] /\
+  wfm val val keq (arun val val keq ex_cat ex_aops).
+Proof.
+  split; [exact keq_sym|]. split; [exact (distinctb_ok val val keq ex_cat eq_refl)|]. split; [vm_compute; reflexivity|].
+  apply (C03_keys_stay_distinct val val keq keq_sym). exact (distinctb_ok val val keq ex_cat eq_refl).
+Qed.
 
 Theorem C03_every_history_refines_the_abstract_map :
   forall (K V : Type) (keq : K -> K -> bool),
@@ -19,6 +35,16 @@ Theorem C03_every_history_refines_the_abstract_map :
          forall x : K, a_get keq (arun K V keq m ops) x = frun K V keq (a_get keq m) ops x.
 Proof. exact C03_refines. Qed.
 
+Example C03_every_history_refines_the_abstract_map_example :
+  (forall x : val, a_get keq (arun val val keq ex_cat ex_aops) x = frun val val keq (a_get keq ex_cat) ex_aops x) /\
+  a_get keq (arun val val keq ex_cat ex_aops) kb = Some (iv 20) /\
+  frun val val keq (a_get keq ex_cat) ex_aops ka = Some (iv 5) /\
+  frun val val keq (a_get keq ex_cat) ex_aops (ks [122]%Z) = None.
+Proof.
+  split; [|repeat split; vm_compute; reflexivity].
+  apply (C03_every_history_refines_the_abstract_map val val keq keq_sym keq_trans). exact (distinctb_ok val val keq ex_cat eq_refl).
+Qed.
+
 Theorem C03_views_agree :
   forall (K V : Type) (keq : K -> K -> bool),
          (forall k : K, keq k k = true) ->
@@ -27,10 +53,23 @@ Theorem C03_views_agree :
          wfm K V keq m -> forall (k : K) (v : V), In (k, v) m -> a_get keq m k = Some v.
 Proof. exact C03_views. Qed.
 
+(* non-vacuity: this theorem asks reflexivity of "==" for ALL keys, which holds for int keys (Z.eqb) but not for
+   Go keys in general (NaN); see C03_views_agree_at_self_equal_keys for the pool's keys *)
+Example C03_views_agree_example :
+  (forall k : Z, Z.eqb k k = true) /\ (forall a b : Z, Z.eqb a b = Z.eqb b a) /\
+  wfm Z Z Z.eqb [(1, 10); (2, 20)]%Z /\ a_get Z.eqb [(1, 10); (2, 20)]%Z 2%Z = Some 20%Z.
+Proof.
+  split; [exact Z.eqb_refl|]. split; [exact Z.eqb_sym|]. split; [apply (distinctb_ok Z Z Z.eqb); reflexivity|reflexivity].
+Qed.
+
 Theorem C03_views_agree_conv :
   forall (K V : Type) (keq : K -> K -> bool) (m : list (K * V)) (x : K) (v : V),
          a_get keq m x = Some v -> exists k : K, In (k, v) m /\ keq x k = true.
 Proof. exact C03_views_conv. Qed.
+
+Example C03_views_agree_conv_example :
+  a_get keq ex_cat kb = Some (iv 2) /\ In (kb, iv 2) ex_cat /\ keq kb kb = true.
+Proof. split; [vm_compute; reflexivity|]. split; [right; left; reflexivity|vm_compute; reflexivity]. Qed.
 
 Theorem C03_set_existing_keeps_position :
   forall (K V : Type) (keq : K -> K -> bool) (m : list (K * V)) (k : K) (v : V),
@@ -38,10 +77,18 @@ Theorem C03_set_existing_keeps_position :
          keys K V (a_set keq m k v) = keys K V m /\ length (a_set keq m k v) = length m.
 Proof. exact a_set_present. Qed.
 
+Example C03_set_existing_keeps_position_example :
+  a_get keq ex_cat kb <> None /\ a_set keq ex_cat kb (iv 20) = [(ka, iv 1); (kb, iv 20); (kc, iv 3)].
+Proof. split; [vm_compute; discriminate|vm_compute; reflexivity]. Qed.
+
 Theorem C03_set_new_appends :
   forall (K V : Type) (keq : K -> K -> bool) (m : list (K * V)) (k : K) (v : V),
          a_get keq m k = None -> a_set keq m k v = m ++ [(k, v)].
 Proof. exact a_set_absent. Qed.
+
+Example C03_set_new_appends_example :
+  a_get keq ex_cat kd = None /\ a_set keq ex_cat kd (iv 4) = ex_cat ++ [(kd, iv 4)].
+Proof. split; vm_compute; reflexivity. Qed.
 
 Theorem C03_remove_deletes_exactly_that :
   forall (K V : Type) (keq : K -> K -> bool) (m : list (K * V)) (k : K),
@@ -51,15 +98,28 @@ Theorem C03_remove_deletes_exactly_that :
            m = pre ++ (k', v) :: post /\ keq k k' = true /\ a_remove keq m k = pre ++ post.
 Proof. exact a_remove_present. Qed.
 
+Example C03_remove_deletes_exactly_that_example :
+  wfm val val keq ex_cat /\ a_get keq ex_cat kb <> None /\
+  a_remove keq ex_cat kb = [(ka, iv 1); (kc, iv 3)] /\ a_get_or_zero (iv 0) keq ex_cat kb = iv 2.
+Proof. split; [exact (distinctb_ok val val keq ex_cat eq_refl)|]. split; [vm_compute; discriminate|]. split; vm_compute; reflexivity. Qed.
+
 Theorem C03_remove_absent_noop :
   forall (K V : Type) (keq : K -> K -> bool) (m : list (K * V)) (k : K),
          a_get keq m k = None -> a_remove keq m k = m.
 Proof. exact a_remove_absent. Qed.
 
+Example C03_remove_absent_noop_example :
+  a_get keq ex_cat kd = None /\ a_remove keq ex_cat kd = ex_cat /\ a_get_or_zero (iv 0) keq ex_cat kd = iv 0.
+Proof. repeat split; vm_compute; reflexivity. Qed.
+
 Theorem C03_absent_reads_zero :
   forall (K V : Type) (vzero : V) (keq : K -> K -> bool) (m : list (K * V)) (k : K),
          a_get keq m k = None -> a_get_or_zero vzero keq m k = vzero.
 Proof. exact a_get_or_zero_absent. Qed.
+
+Example C03_absent_reads_zero_example :
+  a_get keq ex_cat kd = None /\ a_get_or_zero (iv 0) keq ex_cat kd = iv 0.
+Proof. split; vm_compute; reflexivity. Qed.
 
 Theorem C03_lookup_after_set :
   forall (K V : Type) (keq : K -> K -> bool),
@@ -69,6 +129,12 @@ Theorem C03_lookup_after_set :
          a_get keq (a_set keq m k v) x = (if keq x k then Some v else a_get keq m x).
 Proof. exact a_get_set. Qed.
 
+Example C03_lookup_after_set_example :
+  (forall a b : val, keq a b = keq b a) /\
+  (forall a b c : val, keq a b = true -> keq b c = true -> keq a c = true) /\
+  a_get keq (a_set keq ex_cat kb (iv 20)) kb = Some (iv 20) /\ a_get keq (a_set keq ex_cat kb (iv 20)) kc = Some (iv 3).
+Proof. split; [exact keq_sym|]. split; [exact keq_trans|]. split; vm_compute; reflexivity. Qed.
+
 Theorem C03_lookup_after_remove :
   forall (K V : Type) (keq : K -> K -> bool),
          (forall a b : K, keq a b = keq b a) ->
@@ -76,6 +142,10 @@ Theorem C03_lookup_after_remove :
          forall (m : list (K * V)) (k x : K),
          wfm K V keq m -> a_get keq (a_remove keq m k) x = (if keq x k then None else a_get keq m x).
 Proof. exact a_get_remove. Qed.
+
+Example C03_lookup_after_remove_example :
+  wfm val val keq ex_cat /\ a_get keq (a_remove keq ex_cat kb) kb = None /\ a_get keq (a_remove keq ex_cat kb) kc = Some (iv 3).
+Proof. split; [exact (distinctb_ok val val keq ex_cat eq_refl)|]. split; vm_compute; reflexivity. Qed.
 
 Theorem C03_reorder_keeps_mapping :
   forall (K V : Type) (keq : K -> K -> bool),
@@ -86,11 +156,28 @@ Theorem C03_reorder_keeps_mapping :
          Permutation.Permutation m m' -> forall x : K, a_get keq m' x = a_get keq m x.
 Proof. exact a_get_perm. Qed.
 
+(* non-vacuity: the reversed catalog is a permutation; every lookup is unchanged *)
+Example C03_reorder_keeps_mapping_example :
+  wfm val val keq ex_cat /\ Permutation.Permutation ex_cat (rev ex_cat) /\
+  (forall x : val, a_get keq (rev ex_cat) x = a_get keq ex_cat x).
+Proof.
+  split; [exact (distinctb_ok val val keq ex_cat eq_refl)|]. split; [apply Permutation.Permutation_rev|].
+  apply (C03_reorder_keeps_mapping val val keq keq_sym keq_trans ex_cat (rev ex_cat) (distinctb_ok val val keq ex_cat eq_refl)).
+  apply Permutation.Permutation_rev.
+Qed.
+
 Theorem C03_reorder_keeps_distinct :
   forall (K V : Type) (keq : K -> K -> bool),
          (forall a b : K, keq a b = keq b a) ->
          forall m m' : list (K * V), wfm K V keq m -> Permutation.Permutation m m' -> wfm K V keq m'.
 Proof. exact wfm_perm. Qed.
+
+Example C03_reorder_keeps_distinct_example :
+  wfm val val keq ex_cat /\ Permutation.Permutation ex_cat (rev ex_cat) /\ wfm val val keq (rev ex_cat).
+Proof.
+  split; [exact (distinctb_ok val val keq ex_cat eq_refl)|]. split; [apply Permutation.Permutation_rev|].
+  apply (C03_reorder_keeps_distinct val val keq keq_sym ex_cat (rev ex_cat) (distinctb_ok val val keq ex_cat eq_refl)). apply Permutation.Permutation_rev.
+Qed.
 
 Theorem C03_bulk_remove :
   forall (K V : Type) (vzero : V) (keq : K -> K -> bool),
@@ -105,6 +192,12 @@ Theorem C03_bulk_remove :
           (if existsb (keq x) ks then None else a_get keq m x)).
 Proof. exact a_remove_all_spec. Qed.
 
+(* non-vacuity: RemoveValues([c, z, a, c]) — an absent key (z) and a repeated key (c): zero values come out for them *)
+Example C03_bulk_remove_example :
+  wfm val val keq ex_cat /\
+  a_remove_all (iv 0) keq ex_cat ex_req = ([iv 3; iv 0; iv 1; iv 0], [(kb, iv 2)]).
+Proof. split; [exact (distinctb_ok val val keq ex_cat eq_refl)|vm_compute; reflexivity]. Qed.
+
 Theorem C03_constructors_last_wins :
   forall (K V : Type) (keq : K -> K -> bool),
          (forall a b : K, keq a b = keq b a) ->
@@ -116,6 +209,127 @@ Theorem C03_constructors_last_wins :
          | None => a_get keq m x
          end.
 Proof. exact a_set_all_get. Qed.
+
+(* non-vacuity: MakeFromArray([a:1, b:2, a:7]): a keeps its first position and gets the last value *)
+Example C03_constructors_last_wins_example :
+  a_set_all keq [] [(ka, iv 1); (kb, iv 2); (ka, iv 7)] = [(ka, iv 7); (kb, iv 2)].
+Proof. vm_compute; reflexivity. Qed.
+
+Theorem C03_go_key_equality_is_symmetric :
+  forall a b : val, keq a b = keq b a.
+Proof. exact keq_sym. Qed.
+
+(* reflexivity is NOT claimed: a NaN float64 key is not equal to itself (as in Go) *)
+Example C03_go_key_equality_not_reflexive_on_nan :
+  keq (VFloat 64 9221120237041090560) (VFloat 64 9221120237041090560) = false /\ keq (VFloat 64 0) (VFloat 64 0) = true.
+Proof. split; vm_compute; reflexivity. Qed.
+
+Theorem C03_go_key_equality_is_transitive :
+  forall a b c : val, keq a b = true -> keq b c = true -> keq a c = true.
+Proof. exact keq_trans. Qed.
+
+Theorem C03_views_agree_at_self_equal_keys :
+  forall (K V : Type) (keq : K -> K -> bool),
+         (forall a b : K, keq a b = keq b a) ->
+         forall m : list (K * V),
+         wfm K V keq m ->
+         forall (k : K) (v : V), In (k, v) m -> keq k k = true -> a_get keq m k = Some v.
+Proof. exact views_agree_at. Qed.
+
+Theorem C03_remove_returns_the_stored_value :
+  forall (K V : Type) (vzero : V) (keq : K -> K -> bool) (m : list (K * V)) (k : K) (v : V),
+         a_get keq m k = Some v -> a_get_or_zero vzero keq m k = v.
+Proof. exact a_get_or_zero_present. Qed.
+
+Theorem C03_bulk_remove_values_in_key_order :
+  forall (K V : Type) (vzero : V) (keq : K -> K -> bool) (m : list (K * V)) 
+           (k : K) (ks : list K),
+         a_remove_all vzero keq m (k :: ks) =
+         (a_get_or_zero vzero keq m k :: fst (a_remove_all vzero keq (a_remove keq m k) ks),
+          snd (a_remove_all vzero keq (a_remove keq m k) ks)).
+Proof. exact a_remove_all_cons. Qed.
+
+Theorem C03_pool_keys_history_keeps_keys_distinct :
+  forall (ops : list (aop val val)) (m : list (val * val)),
+         wfm val val keq m -> wfm val val keq (arun val val keq m ops).
+Proof. exact val_history_keeps_keys_distinct. Qed.
+
+Theorem C03_pool_keys_history_refines_the_abstract_map :
+  forall (ops : list (aop val val)) (m : list (val * val)),
+         wfm val val keq m ->
+         forall x : val, a_get keq (arun val val keq m ops) x = frun val val keq (a_get keq m) ops x.
+Proof. exact val_history_refines_the_abstract_map. Qed.
+
+Theorem C03_pool_catalog_operations :
+  forall (zero : val) (p : list obj) (o : nat) (m : list (val * val)) (k v : val),
+         o < length p ->
+         get p o = OCat m ->
+         nth o (fst (step zero p (Pool.ASet o k v))) ODead = OCat (a_set keq m k v) /\
+         (nth o (fst (step zero p (Pool.ARemove o k))) ODead = OCat (a_remove keq m k) /\
+          snd (step zero p (Pool.ARemove o k)) = RVal (a_get_or_zero zero keq m k)) /\
+         snd (step zero p (AGet o k)) = RVal (a_get_or_zero zero keq m k) /\
+         nth o (fst (step zero p (RemoveAll o))) ODead = OCat [] /\
+         snd (step zero p (GetSize o)) = RInt (Z.of_nat (length m)) /\
+         (forall okeys : list val, step zero p (AKeys o okeys) = (p ++ [OLst (map fst m)], RNew)) /\
+         seq_plain (get p o) = Some (assoc_vals m).
+Proof. exact pool_catalog_ops. Qed.
+
+Theorem C03_pool_bulk_remove :
+  forall (zero : val) (p : list obj) (o keys : nat) (ks : list val),
+         o < length p ->
+         seq_plain (get p keys) = Some ks ->
+         (forall m : list (val * val),
+          get p o = OCat m ->
+          step zero p (ARemoveValues o keys) =
+          (put p o (OCat (snd (a_remove_all zero keq m ks))) ++
+           [OLst (fst (a_remove_all zero keq m ks))], RNew)) /\
+         (forall m : list (val * val),
+          get p o = OMap m ->
+          step zero p (ARemoveValues o keys) =
+          (put p o (OMap (snd (a_remove_all zero keq m ks))) ++
+           [OArr (fst (a_remove_all zero keq m ks))], RNew)).
+Proof. exact pool_remove_values. Qed.
+
+Theorem C03_pool_constructors :
+  forall (zero : val) (l : list val) (kvs : list (val * val)),
+         vals_assoc l = Some kvs ->
+         build zero CCatalog l = Ret (OCat (a_set_all keq [] kvs)) /\
+         build zero CMap l = Ret (OMap (a_set_all keq [] kvs)) /\
+         wfm val val keq (a_set_all keq [] kvs) /\
+         (forall x : val, a_get keq (a_set_all keq [] kvs) x = a_get keq (rev kvs) x).
+Proof. exact pool_assoc_constructors. Qed.
+
+Theorem C03_sort_reverse_shuffle_keep_the_mapping :
+  forall (zero : val) (p : list obj) (o : nat) (m : list (val * val)),
+         o < length p ->
+         get p o = OCat m ->
+         wfm val val keq m ->
+         (forall rk : nat,
+          exists m' : list (val * val),
+            nth o (fst (step zero p (SortWith o rk))) ODead = OCat m' /\
+            Permutation.Permutation m' m /\
+            wfm val val keq m' /\ (forall x : val, a_get keq m' x = a_get keq m x)) /\
+         (exists m' : list (val * val),
+            nth o (fst (step zero p (SortValues o))) ODead = OCat m' /\
+            Permutation.Permutation m' m /\
+            wfm val val keq m' /\ (forall x : val, a_get keq m' x = a_get keq m x)) /\
+         (exists m' : list (val * val),
+            nth o (fst (step zero p (ReverseValues o))) ODead = OCat m' /\
+            m' = rev m /\ wfm val val keq m' /\ (forall x : val, a_get keq m' x = a_get keq m x)) /\
+         (forall rs : list nat,
+          exists m' : list (val * val),
+            nth o (fst (step zero p (ShuffleValues o rs))) ODead = OCat m' /\
+            Permutation.Permutation m' m /\
+            wfm val val keq m' /\ (forall x : val, a_get keq m' x = a_get keq m x)).
+Proof. exact catalog_reorder_keeps_mapping. Qed.
+
+(* non-vacuity at pool level: a Catalog c:3 a:1 b:2 sorted with the default ranking, reversed and shuffled *)
+Example C03_sort_reverse_shuffle_example :
+  run (iv 0) [OCat [(kc, iv 3); (ka, iv 1); (kb, iv 2)]] [SortValues 0] = [OCat ex_cat] /\
+  run (iv 0) [OCat ex_cat] [ReverseValues 0] = [OCat (rev ex_cat)] /\
+  run (iv 0) [OCat ex_cat] [ShuffleValues 0 [2; 2; 0]] = [OCat [(kb, iv 2); (ka, iv 1); (kc, iv 3)]] /\
+  wfm val val keq ex_cat.
+Proof. split; [vm_compute; reflexivity|]. split; [vm_compute; reflexivity|]. split; [vm_compute; reflexivity|]. exact (distinctb_ok val val keq ex_cat eq_refl). Qed.
 
 
 Print Assumptions C03_keys_stay_distinct.
@@ -133,3 +347,14 @@ Print Assumptions C03_reorder_keeps_mapping.
 Print Assumptions C03_reorder_keeps_distinct.
 Print Assumptions C03_bulk_remove.
 Print Assumptions C03_constructors_last_wins.
+Print Assumptions C03_go_key_equality_is_symmetric.
+Print Assumptions C03_go_key_equality_is_transitive.
+Print Assumptions C03_views_agree_at_self_equal_keys.
+Print Assumptions C03_remove_returns_the_stored_value.
+Print Assumptions C03_bulk_remove_values_in_key_order.
+Print Assumptions C03_pool_keys_history_keeps_keys_distinct.
+Print Assumptions C03_pool_keys_history_refines_the_abstract_map.
+Print Assumptions C03_pool_catalog_operations.
+Print Assumptions C03_pool_bulk_remove.
+Print Assumptions C03_pool_constructors.
+Print Assumptions C03_sort_reverse_shuffle_keep_the_mapping.
